@@ -16,15 +16,15 @@ func VectorAggregation(
 	expr *logql.VectorAggregationExpr,
 ) (StepIterator, error) {
 	var (
-		grouper     = nopGrouper
+		// Without grouping clause all series form one group with an empty label set,
+		// i.e. it is the same as `by ()`.
+		grouper     = AggregatedLabels.By
 		groupLabels []logql.Label
 	)
 	if g := expr.Grouping; g != nil {
 		groupLabels = g.Labels
 		if g.Without {
 			grouper = AggregatedLabels.Without
-		} else {
-			grouper = AggregatedLabels.By
 		}
 	}
 
